@@ -482,6 +482,81 @@ func inboundPaths(r *lib.Run, idx, limit int) {
 		r.Count("inbound_transfer_"+sc.name, len(accs))
 		w.verdict("transfer:"+sc.name, "inbound", sc.wd, nil)
 	}
+	// every slot taken by senders that connect, start their stream and then hold it open: while the
+	// transfers are still being read the limit must keep further offers out
+	if limit > 0 {
+		type acc struct {
+			p *peer
+			c uint16
+		}
+		var accs []acc
+		for i, p := range w.peers {
+			a, c, ok := send(p, 1+i%2)
+			r.Count("inbound_offers_sent", 1)
+			if ok && a > 0 {
+				accs = append(accs, acc{p, c})
+			}
+		}
+		if len(accs) > limit {
+			r.Violation("more-transfers-than-limit:inbound", fmt.Sprintf("%d inbound offers are accepted and open at once with a limit of %d", len(accs), limit), map[string]any{"limit": limit, "scenario": "held-open"})
+		}
+		release := make(chan struct{})
+		connected := make(chan bool, len(accs))
+		var wg sync.WaitGroup
+		for _, a := range accs {
+			wg.Add(1)
+			go func(a acc) {
+				defer wg.Done()
+				ctx, cancel := context.WithTimeout(context.Background(), 30*time.Second)
+				defer cancel()
+				conn, err := a.p.adv.Utp.DialWithCid(ctx, w.node.Self(), a.c)
+				if err != nil {
+					connected <- false
+					return
+				}
+				wctx, wcancel := context.WithTimeout(context.Background(), 10*time.Second)
+				_, werr := conn.Write(wctx, append([]byte{0x88, 0x27}, make([]byte, 40)...)) // announces a 5000-byte item, delivers 40 bytes
+				wcancel()
+				connected <- werr == nil
+				<-release
+				conn.Close()
+			}(a)
+		}
+		held := 0
+		for range accs {
+			select {
+			case ok := <-connected:
+				if ok {
+					held++
+				}
+			case <-time.After(40 * time.Second):
+			}
+		}
+		if len(accs) == limit && held == limit {
+			time.Sleep(300 * time.Millisecond) // scheduling only: let the node's receive goroutines reach their read
+			extra := 0
+			for k := 0; k < 2; k++ {
+				a, _, ok := send(w.peers[(k+1)%len(w.peers)], 1)
+				r.Eval(1)
+				r.Count("inbound_offers_sent_while_all_slots_held_open", 1)
+				if ok && a > 0 {
+					extra++
+				}
+			}
+			if extra > 0 {
+				r.Violation("more-transfers-than-limit:inbound:while-transfers-held-open",
+					fmt.Sprintf("with a limit of %d and %d inbound transfers connected and still being sent, %d further offer(s) were accepted", limit, held, extra),
+					map[string]any{"limit": limit, "transfers_held_open": held, "further_offers_accepted": extra})
+			}
+			r.Count("inbound_held_open_rounds", 1)
+			r.Distinct(fmt.Sprintf("inbound-held-open-%d-limit%d", idx, limit))
+		} else {
+			r.Count("inbound_held_open_round_not_reached_info", 1)
+		}
+		close(release)
+		wg.Wait()
+		w.verdict("transfer:held-open-then-closed", "inbound", 150*time.Second, nil)
+	}
 	if limit == 0 {
 		a, _, ok := send(w.peers[0], 2)
 		r.Eval(1)
